@@ -306,7 +306,7 @@ func Structures() []Entry {
 	add("dep-label", func() *schema.BodySchema {
 		return &schema.BodySchema{Blocks: map[string]*schema.BlockSchema{
 			"res": {
-				Labels: []*schema.LabelSchema{{Name: "type", IsDepKey: true, Completable: true, SemanticTokenModifiers: lang.SemanticTokenModifiers{"mtype"}}, {Name: "name"}},
+				Labels: []*schema.LabelSchema{{Name: "type", Description: lang.Markdown("the type label"), IsDepKey: true, Completable: true, SemanticTokenModifiers: lang.SemanticTokenModifiers{"mtype"}}, {Name: "name"}},
 				Body: &schema.BodySchema{
 					Attributes: map[string]*schema.AttributeSchema{"static": strAttr(nil)},
 					Extensions: ext(true, true, true, false),
@@ -326,6 +326,10 @@ func Structures() []Entry {
 					depKey([]schema.LabelDependent{lbl(0, "gcp")}, nil): markerBody("m_gcp", nil),
 					// label values holding characters JSON escapes (<, >, &) or Go considers non-printable (no-break space)
 					depKey([]schema.LabelDependent{lbl(0, "a&b<c>")}, nil):  markerBody("m_amp", nil),
+					// bodies that have only a description, only a detail, neither
+					depKey([]schema.LabelDependent{lbl(0, "onlydesc")}, nil):   {Description: lang.Markdown("only a description"), Attributes: map[string]*schema.AttributeSchema{"m_od": strAttr(nil)}},
+					depKey([]schema.LabelDependent{lbl(0, "onlydetail")}, nil): {Detail: "only-a-detail", Attributes: map[string]*schema.AttributeSchema{"m_ot": strAttr(nil)}},
+					depKey([]schema.LabelDependent{lbl(0, "neither")}, nil):    {Attributes: map[string]*schema.AttributeSchema{"m_no": strAttr(nil)}},
 					depKey([]schema.LabelDependent{lbl(0, "no\u00a0brk")}, nil): markerBody("m_nbsp", nil),
 				},
 				Address: &schema.BlockAddrSchema{
@@ -342,6 +346,7 @@ func Structures() []Entry {
 		"res \"\" \"n\" {\n}\n",
 		"res \"aws\" {\n}\nres {\n}\n",
 		"res \"aws\" \"a\" {\n}\n/* \u017e */ res \"a\" \"n\" {\n}\n",
+		"res \"onlydesc\" \"a\" {\n  m_od = \"1\"\n}\nres \"onlydetail\" \"b\" {\n  m_ot = \"1\"\n}\nres \"neither\" \"c\" {\n  m_no = \"1\"\n}\n",
 		"res \"a&b<c>\" \"x\" {\n  m_amp = \"1\"\n  m_aws = \"no\"\n}\nres \"no\u00a0brk\" \"y\" {\n  m_nbsp = \"1\"\n}\nres \"a&\" \"z\" {\n}\n",
 	)
 
@@ -366,6 +371,50 @@ func Structures() []Entry {
 		}}
 	},
 		"data \"a\" {\n  zone = \"z\"\n  kind = \"k\"\n  m_kz = \"1\"\n}\ndata \"b\" {\n  kind = \"k\"\n  alpha = \"a\"\n  zone = \"z\"\n  m_kza = \"1\"\n}\n",
+	)
+
+	// declarations of structural types that convert in one direction only (narrower / wider objects, tuple vs list)
+	add("conv-types", func() *schema.BodySchema {
+		obj := func(names ...string) cty.Type {
+			m := map[string]cty.Type{}
+			for _, n := range names {
+				m[n] = cty.String
+			}
+			return cty.Object(m)
+		}
+		decl := func(t cty.Type) *schema.AttributeSchema {
+			return &schema.AttributeSchema{Constraint: schema.AnyExpression{OfType: t}, IsOptional: true,
+				Address: &schema.AttributeAddrSchema{Steps: schema.Address{schema.StaticStep{Name: "d"}, schema.AttrNameStep{}}, AsExprType: true}}
+		}
+		want := func(t cty.Type) *schema.AttributeSchema {
+			return &schema.AttributeSchema{Constraint: schema.AnyExpression{OfType: t}, IsOptional: true}
+		}
+		return &schema.BodySchema{Attributes: map[string]*schema.AttributeSchema{
+			"narrow": decl(obj("name")), "exact": decl(obj("name", "port")), "wide": decl(obj("name", "port", "extra")),
+			"pair": decl(cty.Tuple([]cty.Type{cty.String, cty.String})), "strings": decl(cty.List(cty.String)), "str": decl(cty.String),
+			"want_obj": want(obj("name", "port")), "want_tuple": want(cty.Tuple([]cty.Type{cty.String, cty.String})), "want_list": want(cty.List(cty.String)),
+			"want_list_obj": want(cty.List(obj("name", "port"))),
+		}}
+	},
+		"narrow = { name = \"a\" }\nexact = { name = \"a\", port = \"1\" }\nwide = { name = \"a\", port = \"1\", extra = \"x\" }\npair = [\"a\", \"b\"]\nstrings = [\"a\", \"b\"]\nstr = \"s\"\nwant_obj = \n",
+		"narrow = { name = \"a\" }\nexact = { name = \"a\", port = \"1\" }\nwide = { name = \"a\", port = \"1\", extra = \"x\" }\npair = [\"a\", \"b\"]\nstrings = [\"a\", \"b\"]\nwant_tuple = \n",
+		"narrow = { name = \"a\" }\nexact = { name = \"a\", port = \"1\" }\nwide = { name = \"a\", port = \"1\", extra = \"x\" }\npair = [\"a\", \"b\"]\nstrings = [\"a\", \"b\"]\nwant_list = d.\nwant_list_obj = [d.]\n",
+	)
+
+	// a body that enables count / for_each AND declares attributes of those names itself
+	add("ext-name-clash", func() *schema.BodySchema {
+		return &schema.BodySchema{Blocks: map[string]*schema.BlockSchema{
+			"res": {Body: &schema.BodySchema{
+				Extensions: ext(true, true, false, false),
+				Attributes: map[string]*schema.AttributeSchema{
+					"count":    {Constraint: schema.LiteralType{Type: cty.Number}, IsOptional: true, Description: lang.Markdown("own count")},
+					"for_each": {Constraint: schema.LiteralType{Type: cty.String}, IsOptional: true},
+					"other":    strAttr(nil),
+				}}},
+		}}
+	},
+		"res {\n  \n}\n",
+		"res {\n  count = 2\n  other = \"x\"\n}\nres {\n  for_each = \"s\"\n  c\n}\n",
 	)
 
 	// an inferred body whose nested block types have no body schema
@@ -483,6 +532,33 @@ func Structures() []Entry {
 		"data \"g\" {\n  kind = true ? null : \"a\"\n}\ndata \"h\" {\n  kind = unknownfn()\n  kind2 = 1\n}\n",
 		"data \"i\" {\n  kind = \n}\n",
 		"data \"j\" {\n  kind = \"k1\"\n  \n}\n",
+	)
+
+	// a static body that points at another path: every written dependency key attribute is a direct origin,
+	// whatever its value looks like (also an unclosed call, whose end the parser leaves at 0:0)
+	add("dep-direct-static", func() *schema.BodySchema {
+		return &schema.BodySchema{Blocks: map[string]*schema.BlockSchema{
+			"module": {
+				Labels: []*schema.LabelSchema{{Name: "name"}},
+				Body: &schema.BodySchema{
+					Targets:  &schema.Target{Path: lang.Path{Path: "/p1"}, Range: SentinelRange},
+					DocsLink: &schema.DocsLink{URL: "https://example.com/module"},
+					Attributes: map[string]*schema.AttributeSchema{
+						"source": {Constraint: schema.LiteralType{Type: cty.String}, IsOptional: true, IsDepKey: true},
+						"other":  strAttr(nil),
+					}},
+				DependentBody: map[schema.SchemaKey]*schema.BodySchema{
+					depKey(nil, []schema.AttributeDependent{attrDep("source", cty.StringVal("./m"))}): markerBody("m_m", func(b *schema.BodySchema) {
+						b.DocsLink = &schema.DocsLink{URL: "https://example.com/m"}
+					}),
+				},
+			},
+		}}
+	},
+		"module \"a\" {\n  source = \"./m\"\n  m_m = \"x\"\n}\nmodule \"b\" {\n  source = \"./other\"\n}\n",
+		"module \"c\" {\n  source = upper(\n}\n",
+		"module \"d\" {\n  source = [upper(\"a\", ]\n  other = \"o\"\n}\n",
+		"module \"e\" {\n  source =\n}\n",
 	)
 
 	// default value selects body; docs link on it (links must cope with the attribute absent)
